@@ -324,6 +324,23 @@ func run(rp *explore.Report, tier string) {
 			rp.Explore(zeroItem(later))
 		}
 	}
+	// a release handed to another thread that may land anywhere in a temporary release of the holder (its tail
+	// included: the function has returned, the token is being taken back), next to two contenders
+	for _, s0 := range []string{"Hy", "Hn", "HyW"} {
+		for _, n := range []int{1, 2} {
+			k++
+			if !rp.Mine(k) {
+				continue
+			}
+			scr := []string{s0, "W", "W"}
+			if n == 2 {
+				scr = append(scr, "W")
+			}
+			it := item(n, make([]int, len(scr)), scr)
+			it.Bound = 3
+			rp.Explore(it)
+		}
+	}
 	for _, T := range threads {
 		L := 2
 		if T == 3 {
